@@ -185,7 +185,7 @@ func (x *Exec) builtin(env *evalEnv, n *ast.CallExpr, name string) []Val {
 			ls, lo := x.ctx.slLen(s), x.ctx.slLen(o)
 			x.assumeQ(fmt.Sprintf("(forall ((i Int)) (! (= (select %s i) (ite (< i %s) (select %s i) (select %s (- i %s)))) :pattern ((select %s i))))", arr, ls, x.ctx.slArr(s), x.ctx.slArr(o), ls, arr))
 			isnil := and(x.ctx.slNil(s), "(= "+lo+" 0)")
-			return []Val{{x.ctx.mkSlice(s.Ty, arr, "(+ "+ls+" "+lo+")", isnil), s.Ty}}
+			return []Val{{x.ctx.mkSlice(s.Ty, arr, "(+ "+ls+" "+lo+")", isnil, x.appendBid(s)), s.Ty}}
 		}
 		arr := x.ctx.slArr(s)
 		ln := x.ctx.slLen(s)
@@ -200,7 +200,7 @@ func (x *Exec) builtin(env *evalEnv, n *ast.CallExpr, name string) []Val {
 		nl := ln
 		if k := len(n.Args) - 1; k > 0 {
 			nl = fmt.Sprintf("(+ %s %d)", ln, k)
-			return []Val{{x.ctx.mkSlice(s.Ty, arr, nl, "false"), s.Ty}}
+			return []Val{{x.ctx.mkSlice(s.Ty, arr, nl, "false", x.appendBid(s)), s.Ty}}
 		}
 		return []Val{s}
 	case "make":
@@ -215,7 +215,7 @@ func (x *Exec) builtin(env *evalEnv, n *ast.CallExpr, name string) []Val {
 				x.oblige(env, "bounds", n.Pos(), "(>= "+ln.S+" 0)", "make: non-negative length")
 			}
 			arr := x.ctx.constArr("Int", x.ctx.Sort(u.Elem()), x.ctx.Zero(u.Elem()))
-			return []Val{{x.ctx.mkSlice(t, arr, ln.S, "false"), t}}
+			return []Val{{x.ctx.mkSlice(t, arr, ln.S, "false", x.freshBid()), t}}
 		case *types.Map:
 			return []Val{{x.ctx.Zero(t), t}}
 		case *types.Chan:
@@ -240,7 +240,7 @@ func (x *Exec) builtin(env *evalEnv, n *ast.CallExpr, name string) []Val {
 		cnt := ite("(< "+ld+" "+lsrc+")", ld, lsrc)
 		arr := x.ctx.Fresh("cpy", fmt.Sprintf("(Array Int %s)", x.ctx.Sort(st.Elem())))
 		x.assumeQ(fmt.Sprintf("(forall ((i Int)) (! (= (select %s i) (ite (and (<= 0 i) (< i %s)) (select %s i) (select %s i))) :pattern ((select %s i))))", arr, cnt, x.ctx.slArr(src), x.ctx.slArr(dst), arr))
-		x.assignTo(n.Args[0], Val{x.ctx.mkSlice(dst.Ty, arr, ld, x.ctx.slNil(dst)), dst.Ty})
+		x.assignTo(n.Args[0], Val{x.ctx.mkSlice(dst.Ty, arr, ld, x.ctx.slNil(dst), x.ctx.slBid(dst)), dst.Ty})
 		return []Val{{cnt, tInt}}
 	case "delete":
 		m := x.expr(env, n.Args[0])
@@ -370,7 +370,7 @@ func (x *Exec) callFunc(env *evalEnv, n *ast.CallExpr, fn *types.Func, recvExpr 
 					v := x.exprAs(env, a, st.Elem())
 					arr = fmt.Sprintf("(store %s %d %s)", arr, j, v.S)
 				}
-				args = append(args, Val{x.ctx.mkSlice(vt, arr, fmt.Sprint(len(n.Args)-k), "false"), vt})
+				args = append(args, Val{x.ctx.mkSlice(vt, arr, fmt.Sprint(len(n.Args)-k), "false", x.freshBid()), vt})
 			}
 		}
 	}
@@ -761,11 +761,31 @@ func (x *Exec) libCall(env *evalEnv, n *ast.CallExpr, fn *types.Func, full strin
 	return x.freshResults(sig, "ext")
 }
 
+// logPrint: ghost output log. When the package declares "ghostvar tlen int", every fmt.Printf appends one entry:
+// printed_fmt(tlen) is the format string, printed_int/printed_str(tlen, k) the k-th argument; tlen is incremented.
 func (x *Exec) logPrint(n *ast.CallExpr, args []Val) {
-	// ghost output log: count of print calls
-	if v, ok := x.st.ghost["printed"]; ok {
-		x.st.ghost["printed"] = Val{"(+ " + v.S + " 1)", tInt}
+	g, ok := x.st.ghost["tlen"]
+	if !ok || len(args) == 0 {
+		return
 	}
+	x.ctx.decl("fun:printed_fmt", "(declare-fun printed_fmt (Int) Str)")
+	x.ctx.decl("fun:printed_int", "(declare-fun printed_int (Int Int) Int)")
+	x.ctx.decl("fun:printed_str", "(declare-fun printed_str (Int Int) Str)")
+	if args[0].Ty != nil && isString(args[0].Ty) {
+		x.st.assume(eq("(printed_fmt "+g.S+")", args[0].S))
+	}
+	for k, a := range args[1:] {
+		if a.Ty == nil {
+			continue
+		}
+		switch x.ctx.Sort(a.Ty) {
+		case "Int":
+			x.st.assume(eq(fmt.Sprintf("(printed_int %s %d)", g.S, k), a.S))
+		case "Str":
+			x.st.assume(eq(fmt.Sprintf("(printed_str %s %d)", g.S, k), a.S))
+		}
+	}
+	x.st.ghost["tlen"] = Val{"(+ " + g.S + " 1)", tInt}
 }
 
 // sortModel: sort.SliceStable(x, less): x becomes a permutation of itself (assumed contract)
@@ -784,7 +804,7 @@ func (x *Exec) sortModel(env *evalEnv, n *ast.CallExpr) []Val {
 	ln := x.ctx.slLen(s)
 	x.st.assume(fmt.Sprintf("(forall ((k Int)) (! (=> (and (<= 0 k) (< k %s)) (and (<= 0 (%s k)) (< (%s k) %s) (= (%s (%s k)) k) (= (select %s k) (select %s (%s k))))) :pattern ((%s k)) :pattern ((select %s k))))", ln, pi, pi, ln, pinv, pi, arr, x.ctx.slArr(s), pi, pi, arr))
 	x.st.assume(fmt.Sprintf("(forall ((j Int)) (! (=> (and (<= 0 j) (< j %s)) (and (<= 0 (%s j)) (< (%s j) %s) (= (%s (%s j)) j))) :pattern ((%s j))))", ln, pinv, pinv, ln, pi, pinv, pinv))
-	x.assignTo(n.Args[0], Val{x.ctx.mkSlice(s.Ty, arr, ln, x.ctx.slNil(s)), s.Ty})
+	x.assignTo(n.Args[0], Val{x.ctx.mkSlice(s.Ty, arr, ln, x.ctx.slNil(s), x.ctx.slBid(s)), s.Ty})
 	x.st.ghost["sortperm"] = Val{pi, nil}
 	// assumed: the result is ordered by less (evaluated on the sorted slice): forall i<j: !less(j,i)
 	if fl, ok := n.Args[1].(*ast.FuncLit); ok && len(fl.Type.Params.List) >= 1 {
@@ -818,4 +838,26 @@ func (x *Exec) sortModel(env *evalEnv, n *ast.CallExpr) []Val {
 	}
 	x.trustedUsed["sort.SliceStable (assumed: result is a permutation of the input, ordered by the less function)"] = true
 	return nil
+}
+
+// freshBid: identity of a newly allocated backing array (drawn from the allocation counter)
+func (x *Exec) freshBid() string {
+	if x.inSpec > 0 {
+		return "0"
+	}
+	return x.allocObj()
+}
+
+// appendBid: append writes in place when there is spare capacity (capacity is not modelled: either case is possible)
+func (x *Exec) appendBid(s Val) string {
+	if x.inSpec > 0 {
+		return x.ctx.slBid(s)
+	}
+	b := x.ctx.Fresh("bid", "Int")
+	x.st.assume("(or (= " + b + " " + x.ctx.slBid(s) + ") (and (>= " + b + " " + x.st.alloc + ")))")
+	na := x.ctx.Fresh("alloc", "Int")
+	x.st.assume("(> " + na + " " + b + ")")
+	x.st.assume("(>= " + na + " " + x.st.alloc + ")")
+	x.st.alloc = na
+	return b
 }
